@@ -750,6 +750,11 @@ class C04(Prop):
         yield {"kind": "regmap", "acc": "gemmini"}
         for kind in ("alu", "gemmx", "xdma"):
             yield {"kind": "regmap", "acc": kind, "default": True}
+        for _ in range(25 if quick else 400):
+            ns = 5 if rng.random() < 0.9 else rng.randint(0, 7)
+            yield {"kind": "regmap", "acc": "gemmx", "via_config": {
+                "m": rng.randint(1, 16), "n": rng.randint(1, 16), "k": rng.randint(1, 16),
+                "streamers": [[rng.randint(0, 6), [rng.choice([2, 4, 8]) for _ in range(rng.randint(0, 2))]] for _ in range(ns)]}}
         n_reg = 150 if quick else 3000
         for _ in range(n_reg):
             a = gen_acc(rng, ("alu", "gemmx", "xdma", "phs"))
@@ -786,6 +791,8 @@ class C04(Prop):
             if c is not None:
                 yield c
         for c in self.malformed_cases(rng, 12 if quick else 60):
+            yield c
+        for c in self.rocc_error_cases(rng, 12 if quick else 60):
             yield c
         n_rocc = 60 if quick else 1200
         made = 0
@@ -943,9 +950,57 @@ class C04(Prop):
             return None
         return {"kind": "rocc", "mlir": pre, "envs": rng.sample(range(len(ENVS)), 4)}
 
+    def rocc_error_cases(self, rng, n):
+        """hand-threaded RoCC programs on the error / edge paths of rocc.py: launch lacking an operand (assert),
+        launch lacking a declared launch instruction (KeyError in combine_pairs_to_ops), retrace of a partner
+        that is in no previous state (KeyError in create_pairs), a setup naming an undeclared instruction
+        (silently not emitted), a field given twice (last value wins)"""
+        st, tk = '!accfg.state<"gemmini">', '!accfg.token<"gemmini">'
+        d1 = decl_text("gemmini", [["k_I0.rs1", 9], ["k_I0.rs2", 9], ["k_I1.rs1", 10], ["k_I1.rs2", 10]],
+                       [["k_GO.rs1", 8], ["k_GO.rs2", 8]], 0xBAD)
+        d2 = decl_text("gemmini", [["k_I0.rs1", 9], ["k_I0.rs2", 9]],
+                       [["k_GO.rs1", 8], ["k_GO.rs2", 8], ["k_G2.rs1", 7], ["k_G2.rs2", 7]], 0xBAD)
+        head = FUNC_HEAD.replace("%x : i32, %y : i32, %z : i32", "%x : i64, %y : i64, %z : i64")
+
+        def launch(names, vals, s_, t_):
+            return (f'  {t_} = "accfg.launch"({", ".join(vals + [s_])}) <{{param_names = [{", ".join(chr(34) + n + chr(34) for n in names)}], '
+                    f'accelerator = "gemmini"}}> : ({", ".join(["i64"] * len(vals) + [st])}) -> {tk}\n  "accfg.await"({t_}) : ({tk}) -> ()\n')
+        full = '  %s0 = accfg.setup "gemmini" to ("k_I0.rs1" = %x : i64, "k_I0.rs2" = %y : i64) : ' + st + "\n"
+        variants = [
+            (d1, full + launch(["k_GO.rs1"], ["%x"], "%s0", "%t0")),
+            (d2, full + launch(["k_GO.rs1", "k_GO.rs2"], ["%x", "%y"], "%s0", "%t0")),
+            (d1, full + f'  %s1 = accfg.setup "gemmini" from %s0 to ("k_I1.rs1" = %z : i64) : {st}\n'
+                 + launch(["k_GO.rs1", "k_GO.rs2"], ["%x", "%y"], "%s1", "%t0")),
+            (d1, full + f'  %s1 = accfg.setup "gemmini" from %s0 to ("k_NOPE.rs1" = %z : i64, "k_NOPE.rs2" = %z : i64, "k_I0.rs2" = %z : i64) : {st}\n'
+                 + launch(["k_GO.rs1", "k_GO.rs2"], ["%x", "%y"], "%s1", "%t0")),
+            (d1, f'  %s0 = "accfg.setup"(%x, %y, %z) <{{accelerator = "gemmini", operandSegmentSizes = array<i32: 3, 0>, '
+                 f'param_names = ["k_I0.rs1", "k_I0.rs2", "k_I0.rs1"]}}> : (i64, i64, i64) -> {st}\n'
+                 + launch(["k_GO.rs1", "k_GO.rs2"], ["%x", "%y"], "%s0", "%t0")),
+            (d1, '  %s0 = accfg.setup "gemmini" to ("k_I1.rs2" = %y : i64) : ' + st + "\n"
+                 + f'  %s1 = accfg.setup "gemmini" from %s0 to ("k_I1.rs2" = %z : i64, "k_I0.rs1" = %x : i64, "k_I0.rs2" = %x : i64) : {st}\n'
+                 + launch(["k_GO.rs2", "k_GO.rs1"], ["%x", "%y"], "%s1", "%t0")),
+        ]
+        for i in range(n):
+            d, body = variants[i % len(variants)]
+            src = d + head + body + "  func.return\n}\n"
+            try:
+                m = snaxrun.parse(src)
+                m.verify()
+            except BaseException:
+                continue
+            yield {"kind": "rocc", "mlir": snaxrun.text(m), "envs": [rng.randrange(len(ENVS))], "edge": True}
+
     # ------------------------------------------------------------------ real code
     def _regmap_acc(self, case):
-        if case.get("default"):
+        if case.get("via_config"):
+            # the route a system configuration file takes (config_parser.parse_config -> from_config); dacite is not
+            # installed here, so the dataclasses are built directly
+            from snaxc.accelerators.snax_gemmx import SNAXGEMMXAccelerator
+            from snaxc.tools.configs import GemmxConfig, StreamerConfig
+            c = case["via_config"]
+            return SNAXGEMMXAccelerator.from_config(GemmxConfig(
+                m=c["m"], n=c["n"], k=c["k"], streamers=[StreamerConfig(t, list(sd)) for t, sd in c["streamers"]]))
+        if case.get("default") and not case.get("via_config"):
             from snaxc.accelerators.snax_alu import SNAXAluAccelerator
             from snaxc.accelerators.snax_gemmx import SNAXGEMMXAccelerator
             from snaxc.accelerators.snax_xdma import SNAXXDMAAccelerator
@@ -1054,6 +1109,10 @@ class C04(Prop):
     def requests(self, case):
         kind = case["kind"]
         if kind == "regmap":
+            if case.get("via_config"):
+                vc = case["via_config"]
+                return [{"fn": "c04.regmap", "args": {"acc": "gemmx_config", "cfg": [], "n": vc["n"], "sw": 0,
+                                                      "streamers": [[t, len(sd)] for t, sd in vc["streamers"]]}}]
             c = self._default_as_cfg(case) if case.get("default") else case
             return [{"fn": "c04.regmap", "args": {"acc": case["acc"], "cfg": lean_cfg(c), "n": c.get("n", 0), "sw": c.get("sw", 0)}}]
         if kind == "lower":
@@ -1088,6 +1147,8 @@ class C04(Prop):
                 return {"model_error": a["err"]}
         if kind == "regmap":
             m = answers[0]["ok"]
+            if "raised" in m:
+                return m
             out = {"fields": m["fields"], "launch": m["launch"], "barrier": m["barrier"], "names": m["names"], "lnames": m["lnames"]}
             if case["acc"] in ("alu", "gemmx", "phs", "xdma"):
                 out["reserved"] = sorted(m["reserved"])
@@ -1125,6 +1186,8 @@ class C04(Prop):
             bad.append({"what": what, "finding": None})
         if kind == "regmap":
             if "raised" in impl_out:
+                if case.get("via_config") and len(case["via_config"]["streamers"]) < 5 and impl_out["raised"] == "IndexError":
+                    return bad      # a gemmx configuration needs its five streamers: not a configuration
                 v(f"generate_acc_op raised {impl_out['raised']}: {impl_out.get('msg')}")
                 return bad
             f, l, b = impl_out["fields"], impl_out["launch"], impl_out["barrier"]
@@ -1169,6 +1232,8 @@ class C04(Prop):
             if "raised" in impl_out:
                 v(f"RoCC per-op lowering raised {impl_out['raised']}: {impl_out.get('msg', '')[:200]}")
                 return bad
+            if case.get("edge") and any("raised" in o for o in impl_out["ops"]):
+                return bad      # hand-made error path: an error outcome (compared with the model), nothing to execute
             return bad + self._oracle_rocc(case)
         return bad
 
@@ -1391,9 +1456,9 @@ class C04(Prop):
         return True
 
     def stats_key(self, case, impl_out):
-        k = case["kind"]
+        k = case["kind"] + (":edge" if case.get("edge") else "")
         if k == "regmap":
-            k += ":" + case["acc"]
+            k += ":" + case["acc"] + (":via_config" if case.get("via_config") else "")
         elif k == "lower":
             k += ":" + "+".join(a["acc"] for a in case["accs"]) + (":malformed" if case.get("malformed") else "")
             if carries_state_and_data(case["mlir"]):
